@@ -4,3 +4,4 @@ import BalmProofs.Props.C05
 #print axioms Balm.Impl.mem_reachSet
 #print axioms Balm.Impl.attractors_sound
 #print axioms Balm.Impl.attractors_complete
+#print axioms Balm.Impl.mem_ownAttrs
